@@ -49,8 +49,8 @@ func verifC16lMarshal(v any) ([]byte, error) {
 	}
 	return []byte("{}"), nil
 }
-func verifC16lPostBody(ctx *fasthttp.RequestCtx) []byte                  { return nil }
-func verifC16lSetStatus(ctx *fasthttp.RequestCtx, statusCode int)        {}
+func verifC16lPostBody(ctx *fasthttp.RequestCtx) []byte                     { return nil }
+func verifC16lSetStatus(ctx *fasthttp.RequestCtx, statusCode int)           {}
 func verifC16lWriteResponse(ctx *fasthttp.RequestCtx, httpResp interface{}) {}
 func verifC16lSendError(ctx *fasthttp.RequestCtx, messageToUser string, extraMessageToLog string, err error) {
 	verifC16lErrors++
